@@ -19,6 +19,12 @@ CLAIMED = {
         text="Token soup, arbitrary UTF-8, token mutations of every shipped .ucg/fuzz-corpus file and of generated programs, a catalogue of ~1,700 edge-operand programs and deep-but-allowed nesting are driven through tokenize, parse, fmt, eval, build (type checker) and all converters in-process and through `ucg build|fmt|test`; the oracle is the absence of panic/abort/hang events and exit status in {0,1} with a message. 'Terminates' is monitored as bounded progress (10 s per stage, confirmed alone at 30 s).",
         note="Trusted: the watchdog bound as a stand-in for termination; the probe is built with overflow-checks/debug-assertions on (semantics of `cargo build`). Excluded inputs (nesting > 64, module self-recursion, ranges > 10^6) are counted, not judged.",
         design="DESIGN.md section 4, C04"),
+    "C11": dict(
+        engine="probe",
+        technique="runtime monitor: reference-model oracle (maximal-munch reference tokenizer) on token type/fragment/line/column/offset; exhaustive token pairs (+ triples in thorough); metamorphic layout invariance of tokens and parse trees",
+        text="Every adjacent/separated pair (thorough: every triple) of a vocabulary covering all keywords, operators, punctuation and literal shapes is tokenized by the real tokenizer and by an independent maximal-munch tokenizer written from the reference; random token sequences and generated programs are laid out with random whitespace, LF/CRLF and comments and must keep their token sequence, positions and parse tree; string literals over arbitrary Unicode with every escape form must evaluate to the decoded source text.",
+        note="Trusted: vf/reftok.py as my reading of the grammar (symbols: ASCII letter then letters, digits, _ or -); columns are accepted in bytes or code points because the reference does not define the unit.",
+        design="DESIGN.md section 4, C11"),
     "C02": dict(
         engine="probe",
         technique="runtime monitor: reference-model oracle (precedence climbing over the published table) on parse trees; exhaustive 111,150-chain space + random chains",
